@@ -191,7 +191,7 @@ func VerifC04Constants() {
 func VerifC04ScopeUses() {
 	var sb strings.Builder
 	bad := true
-	switch rt.Choose("case", 8) {
+	switch rt.Choose("case", 13) {
 	case 0: // declared in a block, used after it
 		sb.WriteString("Wenn wahr, dann:\n\tDie Zahl n ist 1.\nDie Zahl m ist n.\n")
 	case 1: // used before the declaration
@@ -210,6 +210,16 @@ func VerifC04ScopeUses() {
 		sb.WriteString("Die Zahl n ist 1.\nWenn wahr, dann:\n\tDer Text n ist \"s\".\n\tDer Text m ist n.\nDie Zahl k ist n.\n")
 	case 7: // a local of a function used in another function
 		sb.WriteString("Die Funktion f gibt nichts zurück, macht:\n\tDie Zahl n ist 1.\nUnd kann so benutzt werden:\n\t\"f\"\n\nDie Funktion g gibt nichts zurück, macht:\n\tDie Zahl m ist n.\nUnd kann so benutzt werden:\n\t\"g\"\n\n")
+	case 8: // the counter of a counting loop in its own end value
+		sb.WriteString("Für jede Zahl i von 1 bis (20 minus i), mache:\n\tDie Zahl q ist i.\n")
+	case 9: // ... and in its own Schrittgröße
+		sb.WriteString("Für jede Zahl i von 1 bis 20 mit Schrittgröße i, mache:\n\tDie Zahl q ist i.\n")
+	case 10: // a loop header naming a variable that only the loop body declares
+		sb.WriteString("Für jede Zahl i von 1 bis q, mache:\n\tDie Zahl q ist 3.\n")
+	case 11: // a condition naming a variable that only the block declares
+		sb.WriteString("Solange q kleiner als 3 ist, mache:\n\tDie Zahl q ist 5.\n")
+	case 12:
+		sb.WriteString("Wenn q gleich 1 ist, dann:\n\tDie Zahl q ist 1.\n")
 	}
 	vC04Judge(sb.String(), bad, "use of an undeclared or out-of-scope name, redeclaration in one scope")
 }
